@@ -27,6 +27,7 @@ CLAUSES = {
     24: 'C08_mean: a cluster stemming from several templates does not carry, on the channels of a dominant template, the '
         'spike-count weighted mean of the channel-restricted templates (zero elsewhere)',
     25: 'C08_identity: clusters = templates but cluster waveforms are not the template waveforms or n_clusters != n_templates',
+    27: 'C08_merge_map_loaded: clusters <> templates but n_clusters or the number of cluster waveforms is not max id + 1',
     26: 'C08_mean_fn: get_cluster_mean_waveforms(c, unwhiten) is not the weighted mean on the channels of a dominant template',
 }
 TRUSTED = ['np.load/np.save, pathlib.glob (dataset files), np.linalg.inv only through the loaded wmi being re-checked against the '
@@ -37,7 +38,7 @@ ASSUMES = ['integer template values |v| <= 1024, integer inverse whitening |v| <
            'pairwise distinct channel positions; when there are more than 12 channels, no distance tie between the 12th and '
            '13th closest channel of any channel', 'template ids < n_templates, cluster ids >= 0, at least one spike',
            'order of channel_ids in get_cluster_mean_waveforms is not observed (columns are compared per channel)']
-TIMEOUT = {'quick': 20, 'thorough': 30}
+TIMEOUT = {'quick': 60, 'thorough': 120}    # a case takes ~0.1 s; generous so that machine load is never read as a hang
 
 
 # ---- generator -------------------------------------------------------------------------------------------
